@@ -24,6 +24,10 @@ import (
 	"verif/internal/e2e"
 )
 
+// e2eHung: a bubble has been abandoned with goroutines of the library still in it; its ticker keeps its virtual clock
+// racing, so the run is wound up (the remaining paths are reported as not run).
+var e2eHung int32
+
 func deliverLines(tr []string) (out []string) {
 	for _, x := range tr {
 		if strings.HasPrefix(x, "deliver") {
@@ -61,6 +65,8 @@ func e2eRun(t *testing.T, it e2eItem, tag string) (rule, what string, trace []st
 		// the bubble ends with goroutines of the library blocked for ever, or cannot go on because every goroutine
 		// is blocked (an engine that no longer serves its connection, a Stop() that never returns)
 		if r := recover(); r != nil {
+			// (what is left of this bubble keeps running on its virtual clock: no further path is started, see e2eHung)
+			atomic.StoreInt32(&e2eHung, 1)
 			rule, what = "engine-goroutine-blocked-for-ever", fmt.Sprint(r)
 			if trace == nil {
 				trace = actions
@@ -187,7 +193,7 @@ func TestE2EReplay(t *testing.T) {
 					return
 				}
 				mu.Lock()
-				stop := len(res.Violations) >= 25 || (!deadline.IsZero() && time.Now().After(deadline))
+				stop := len(res.Violations) >= 25 || (!deadline.IsZero() && time.Now().After(deadline)) || atomic.LoadInt32(&e2eHung) != 0
 				if stop {
 					res.NotRun++
 				}
